@@ -194,3 +194,34 @@ func VerifC13Ids() {
 	c13CheckSeq(c13Decode(key, a))
 	vapi.Reach("ids-end")
 }
+
+// VerifC13ReadFromClose: ReadFrom(r) || Close() on one stream: a chunk read just before the close may still go out
+// after the closing frame (the peer drops it), but never under a (stream id, sequence number) pair already used.
+func VerifC13ReadFromClose() {
+	vapi.SetPreemptBound(vapi.Param("preempt", 2))
+	vapi.RandZero(true)
+	c13Fine()
+	key := c04Key()
+	sesh, a, _ := c14Session(0, key, 14+255+4, false)
+	st, _ := sesh.OpenStream()
+	r := &c13Reader{chunks: [][]byte{vapi.Bytes("R0", 2), vapi.Bytes("R1", 3)}}
+	go func() { st.ReadFrom(r) }()
+	go func() { st.Close() }()
+	vapi.Quiesce()
+	fs := c13Decode(key, a)
+	c13CheckSeq(fs)
+	closeSeen := false
+	for _, f := range fs {
+		switch len(f.payload) {
+		case 2:
+			vapi.Assert(vapi.BytesEq(f.payload, r.chunks[0]), "C13: frame carries what was read")
+		case 3:
+			vapi.Assert(vapi.BytesEq(f.payload, r.chunks[1]), "C13: frame carries what was read")
+		default: // the closing notice (1 byte of padding under the harness's zero random source)
+			vapi.Assert(f.closing != 0 && !closeSeen, "C13: one closing notice")
+			closeSeen = true
+		}
+	}
+	vapi.Assert(closeSeen, "C13: the closing notice is sent")
+	vapi.Reach("readfromclose-end")
+}
